@@ -56,7 +56,7 @@ static void ares_event_signal(const ares_event_t *event)
   event->signal_cb(event);
 }
 
-static void ares_event_thread_wake(const ares_event_thread_t *e)
+void ares_event_thread_wake(const ares_event_thread_t *e)
 {
   if (e == NULL) {
     return; /* LCOV_EXCL_LINE: DefensiveCoding */
@@ -557,6 +557,11 @@ ares_status_t ares_event_thread_init(ares_channel_t *channel)
 {
   (void)channel;
   return ARES_ENOTIMP;
+}
+
+void ares_event_thread_wake(const ares_event_thread_t *e)
+{
+  (void)e;
 }
 
 void ares_event_thread_destroy(ares_channel_t *channel)
